@@ -970,6 +970,31 @@ def check_pycma(rep, rng):
             return
 
 
+def check_explicit_batch(rep, rng):
+    """ask(batch_size=K) with K different from the constructor's batch size is documented; the strategies count the solutions they were
+    actually told about (the evaluation counter drives the lazy eigendecomposition and the h_sigma normaliser of the update rules)"""
+    from ribs.emitters.opt import CMAEvolutionStrategy, SeparableCMAEvolutionStrategy
+    for cls, name in ((CMAEvolutionStrategy, "cma_es"), (SeparableCMAEvolutionStrategy, "sep_cma_es")):
+        for dt in (np.float64, np.float32):
+            b0, K = rng.choice([(4, 10), (6, 3), (2, 7)])
+            es = cls(sigma0=0.5, solution_dim=3, batch_size=b0, seed=rng.randrange(1 << 30), dtype=dt)
+            es.reset(np.zeros(3))
+            rep.count("explicit_batch_histories")
+            told = 0
+            for g in range(5):
+                X = np.array(es.ask(batch_size=K))
+                f = -np.sum((X.astype(np.float64) - 0.5) ** 2, axis=1)
+                es.tell(np.argsort(-f), f, max(K // 2, 1))
+                told += K
+                if X.shape != (K, 3) or int(es.current_eval) != told:
+                    rep.violation("%s: after %d generations of ask(batch_size=%d) / tell the strategy has counted %d evaluations, %d solutions were told "
+                                  "(constructor batch size %d)" % (name, g + 1, K, int(es.current_eval), told, b0),
+                                  {"kind": "property", "broken": "C18 (update rules: the evaluation counter feeds the lazy eigen-update and h_sigma)",
+                                   "case": {"strategy": name, "dtype": np.dtype(dt).name, "ctor_batch": b0, "ask_batch": K, "generation": g + 1}},
+                                  True, {"kind": "evaluation-counter"})
+                    return
+
+
 def check_pycma_ranking(rep, rng):
     """pycma wrapper: the update uses the ranking ORDER only -- two identically seeded wrappers told the same ranking once through 1-D
     ranking values and once through 2-D ones (the two-stage rankers' layout) must stay in lock step (bit-identical next ask)"""
@@ -1193,6 +1218,7 @@ def check(rep, tier, seed, driver):
     try:
         guarded(lambda: check_pycma(rep, rng), 60)
         guarded(lambda: check_pycma_ranking(rep, rng), 60)
+        guarded(lambda: check_explicit_batch(rep, rng), 60)
     except _Hang:
         obs_fail.append({"observation": "pycma", "strategy": "pycma", "did_not_terminate_within_s": 60})
     strategies = ["pycma"] if _has_cma() else []
